@@ -104,9 +104,16 @@ def gen_timeline(rng, n_inst=3):
     for step in range(rng.randrange(3, 14)):
         now += rng.choice([2000, 5000, 5000, 17990, 18000, 18010, 15000, 33000, 33010, 40000])
         for a, k, b in zip(insts, kinds, beating):
-            if b and k == "http" and rng.random() < 0.85:
-                # a heartbeat re-registers the instance (healthy=1), as the beat handler does
-                ops.append("upd svc=%s ip=%s port=%d eph=1 grpc=0 fc=0 cid=- healthy=1 en=1 w=1000 tag=- sync=0 now=%d" % (svc, a[0], a[1], now - rng.choice([0, 1, 500])))
+            if b and k in ("http", "persistent") and rng.random() < 0.85:
+                # a heartbeat: PUT /instance/beat sends the instance with an update tag in which nothing is set
+                # (tag=none) and ephemeral = true unless the client says otherwise - also for an instance that was
+                # registered as persistent; now and then a client re-registers instead (tag=-)
+                if k == "http" and rng.random() < 0.25:
+                    tag, eph = "-", 1
+                else:
+                    tag, eph = "none", (1 if rng.random() < 0.85 else 0)
+                ops.append("upd svc=%s ip=%s port=%d eph=%d grpc=0 fc=0 cid=- healthy=1 en=1 w=1000 tag=%s sync=0 now=%d" % (
+                    svc, a[0], a[1], eph, tag, now - rng.choice([0, 1, 500])))
         ops.append("timecheck now=%d" % now)
         if rng.random() < 0.5:
             ops.append("timecheck now=%d" % (now + 2000))
